@@ -187,10 +187,18 @@ func (q *wpSafe) Serve(c net.Conn) bool {
 	}
 	return false
 }
-func (q *wpSafe) Clean(d time.Duration) { q.do(func() { q.p.Clean(d) }) }
-func (q *wpSafe) Stop()                 { q.do(q.p.Stop) }
-func (q *wpSafe) Start()                { q.p.Start() }
-func (q *wpSafe) StartNoCleaner()       { q.p.StartNoCleaner() }
+func (q *wpSafe) Clean(d time.Duration)                { q.do(func() { q.p.Clean(d) }) }
+func (q *wpSafe) Stop()                                { q.do(q.p.Stop) }
+func (q *wpSafe) TryCounts() (wc, rd int, st, ok bool) { return q.p.TryCounts() } // never blocks
+func (q *wpSafe) AddStalledIdle() *fasthttp.VerifWorkerChan {
+	ch := make(chan *fasthttp.VerifWorkerChan, 1)
+	if q.do(func() { ch <- q.p.AddStalledIdle() }) {
+		return <-ch
+	}
+	return nil
+}
+func (q *wpSafe) Start()          { q.p.Start() }
+func (q *wpSafe) StartNoCleaner() { q.p.StartNoCleaner() }
 
 // waitFor polls cond until it holds, the pool died, or wpWait elapsed.
 func (q *wpSafe) waitFor(cond func() bool) bool {
@@ -869,12 +877,246 @@ func buildWpBsearch(a [][]byte) *Case {
 		}}
 }
 
+// ---------------------------------------------------------------------------------------------
+// kind "stopgate": args = nIdle, nBusy, openMask — connections that finish WHILE Stop is running (deterministic).
+//
+// nIdle real idle workers and one stalled idle worker (played by the harness: it takes its nil only when told to)
+// sit in ready, nBusy workers are parked in WorkerFunc. Stop is started in a goroutine and gets stuck on the stalled
+// worker's notification. While it is stuck the gates of the busy workers in openMask are opened: they finish and call
+// release. Then the stalled worker takes its nil, Stop returns, the remaining gates are opened.
+// Statement: after Stop and the end of every WorkerFunc no worker is left (workersCount = 0, ready empty), every
+// connection was served exactly once.  In the model this is the schedule  … finish w, stop, release w …  (Stop is ONE
+// event because it is one lock region: release either runs before it and the worker is notified, or after it and sees
+// mustStop).
+
+func buildWpStopGate(a [][]byte) *Case {
+	if len(a) < 3 || wpHangs.Load() >= 3 {
+		return nil
+	}
+	nIdle, nBusy, mask := wpAtoi(a[0]), wpAtoi(a[1]), wpAtoi(a[2])
+	if nBusy < 1 || nBusy > 8 || nIdle < 0 || nIdle > 8 {
+		return nil
+	}
+	n := nIdle + nBusy
+	h := newWpRun()
+	gates := make([]chan error, n)
+	for i := range gates {
+		gates[i] = make(chan error, 1)
+	}
+	started := make(chan int, n+1)
+	h.work = func(id int) error { started <- id; return <-gates[id] }
+	pool := &wpSafe{p: fasthttp.VerifNewWorkerPool(n, time.Hour, h.workerFunc, h.connState, nopLogger{})}
+	pool.StartNoCleaner()
+	var viols []string
+	addViol := func(s string) { viols = append(viols, s) }
+	bail := func(what string) *Case {
+		for i := range gates {
+			select {
+			case gates[i] <- nil:
+			default:
+			}
+		}
+		msg := "impl-hang: " + what + " did not happen within " + wpWait.String()
+		return &Case{Impl: msg, Tags: []string{"stopgate"}, Judge: func([]string) Verdict {
+			wpHangs.Store(0)
+			return Verdict{VSpec, "impl-hang", msg}
+		}}
+	}
+	for k := 0; k < n; k++ {
+		if !pool.Serve(&wpConn{id: k, h: h}) || pool.isDead() {
+			return bail("Serve below the bound")
+		}
+		select {
+		case <-started:
+		case <-time.After(wpWait):
+			wpHangs.Add(1)
+			return bail("WorkerFunc start")
+		}
+	}
+	for k := 0; k < nIdle; k++ { // connections 0..nIdle-1 finish now: nIdle idle workers
+		gates[k] <- nil
+		kk := k
+		if !pool.waitFor(func() bool { _, rd, _ := pool.Counts(); return rd == kk+1 }) {
+			return bail("release of an idle worker")
+		}
+	}
+	stalled := pool.AddStalledIdle()
+	if stalled == nil {
+		return bail("AddStalledIdle")
+	}
+	stopDone := make(chan struct{})
+	go func() { pool.p.Stop(); close(stopDone) }()
+	// Stop is inside: it holds the lock (TryCounts fails) or it has already emptied ready
+	if !pool.waitFor(func() bool { _, rd, _, ok := pool.TryCounts(); return !ok || rd == 0 }) {
+		return bail("Stop reaching the idle workers")
+	}
+	opened := 0
+	for j := 0; j < nBusy; j++ {
+		if mask&(1<<j) != 0 {
+			gates[nIdle+j] <- nil
+			opened++
+		}
+	}
+	// the opened connections are finished (Close + connState done), their workers are on the way into release
+	if !pool.waitFor(func() bool {
+		h.mu.Lock()
+		defer h.mu.Unlock()
+		for j := 0; j < nBusy; j++ {
+			if mask&(1<<j) != 0 && len(h.states[nIdle+j]) == 0 {
+				return false
+			}
+		}
+		return true
+	}) {
+		return bail("end of the opened connections")
+	}
+	// release has either run (the workers are visible in ready / the pool is stopped) or is waiting for Stop's lock
+	sawReadyDuringStop := 0
+	pool.waitFor(func() bool {
+		_, rd, st, ok := pool.TryCounts()
+		if ok && rd > sawReadyDuringStop {
+			sawReadyDuringStop = rd
+		}
+		return !ok || st || rd >= opened
+	})
+	// the stalled idle worker takes its notification: Stop can finish
+	gotNil := false
+	if !wpCallT(func() { gotNil = pool.p.TakeNil(stalled) }) {
+		return bail("Stop's notification of the stalled idle worker")
+	}
+	if !gotNil {
+		addViol("stop-sent-conn: the stalled idle worker received a connection instead of nil from Stop")
+	}
+	select {
+	case <-stopDone:
+	case <-time.After(wpWait):
+		wpHangs.Add(1)
+		return bail("return of Stop")
+	}
+	for j := 0; j < nBusy; j++ {
+		if mask&(1<<j) == 0 {
+			gates[nIdle+j] <- nil
+		}
+	}
+	if !pool.waitFor(func() bool { wc, rd, _ := pool.Counts(); return wc == 0 && rd == 0 }) && !pool.isDead() {
+		wc, rd, st := pool.Counts()
+		addViol(fmt.Sprintf("worker-left-after-stop: %d connection(s) finished while Stop was notifying the idle workers; after Stop returned and every WorkerFunc ended workersCount=%d ready=%d mustStop=%v (want 0, 0)", opened, wc, rd, st))
+	}
+	for k := 0; k < n; k++ {
+		if _, v := h.connFate(k, false); v != "" {
+			addViol(v)
+		}
+	}
+	if pool.isDead() {
+		viols = append([]string{"impl-hang: a pool call did not return within " + wpWait.String()}, viols...)
+	}
+	impl := fmt.Sprintf("idle=%d busy=%d openedDuringStop=%d readySeenDuringStop=%d", nIdle, nBusy, opened, sawReadyDuringStop)
+	return &Case{Impl: impl, Nontrivial: opened >= 1, Tags: []string{"stopgate"},
+		Judge: func([]string) Verdict {
+			wpHangs.Store(0)
+			if len(viols) > 0 {
+				return Verdict{VSpec, wpViolKey(viols[0]), viols[0] + " | " + impl}
+			}
+			return Ok()
+		}}
+}
+
+// ---------------------------------------------------------------------------------------------
+// kind "stoprace": args = nIdle, nBusy, spreadMicros, seed — the same window, found by the scheduler: many idle workers
+// make Stop's notification phase long, the busy workers spin until Stop has begun and finish at staggered delays.
+
+func buildWpStopRace(a [][]byte) *Case {
+	if len(a) < 4 || wpHangs.Load() >= 3 {
+		return nil
+	}
+	nIdle, nBusy, spread, seed := wpAtoi(a[0]), wpAtoi(a[1]), wpAtoi(a[2]), wpAtoi(a[3])
+	if nIdle < 0 || nIdle > 2000 || nBusy < 1 || nBusy > 64 {
+		return nil
+	}
+	n := nIdle + nBusy
+	h := newWpRun()
+	var begun atomic.Int64 // unix nanos of the moment Stop is called, 0 before
+	var entered atomic.Int32
+	releaseIdle := make(chan struct{})
+	h.work = func(id int) error {
+		entered.Add(1)
+		if id < nIdle {
+			<-releaseIdle // all n workers exist before the idle ones go back to ready
+			return nil
+		}
+		for begun.Load() == 0 {
+			runtime.Gosched()
+		}
+		k := id - nIdle
+		d := time.Duration((k*spread*1000)/nBusy+(seed*37+k*101)%997) * time.Nanosecond
+		t0 := time.Unix(0, begun.Load())
+		for time.Since(t0) < d {
+		}
+		return nil
+	}
+	pool := &wpSafe{p: fasthttp.VerifNewWorkerPool(n, time.Hour, h.workerFunc, h.connState, nopLogger{})}
+	pool.StartNoCleaner()
+	var viols []string
+	addViol := func(s string) { viols = append(viols, s) }
+	for k := 0; k < n; k++ {
+		if !pool.Serve(&wpConn{id: k, h: h}) {
+			addViol(fmt.Sprintf("conn-rejected-below-bound: Serve returned false with %d connections and MaxWorkersCount %d", k, n))
+			break
+		}
+	}
+	pool.waitFor(func() bool { return int(entered.Load()) == n })
+	close(releaseIdle)
+	// every idle connection is done, its worker back in ready
+	pool.waitFor(func() bool {
+		wc, rd, _ := pool.Counts()
+		return wc-rd == nBusy
+	})
+	_, idleNow, _ := pool.Counts()
+	begun.Store(time.Now().UnixNano())
+	pool.Stop()
+	if !pool.waitFor(func() bool {
+		h.mu.Lock()
+		defer h.mu.Unlock()
+		for k := 0; k < n; k++ {
+			if len(h.states[k]) == 0 {
+				return false
+			}
+		}
+		return true
+	}) {
+		begun.CompareAndSwap(0, 1)
+	}
+	if !pool.waitFor(func() bool { wc, rd, _ := pool.Counts(); return wc == 0 && rd == 0 }) && !pool.isDead() {
+		wc, rd, st := pool.Counts()
+		addViol(fmt.Sprintf("worker-left-after-stop: Stop ran with %d idle workers while %d connections were finishing; after Stop returned and every WorkerFunc ended workersCount=%d ready=%d mustStop=%v (want 0, 0)", idleNow, nBusy, wc, rd, st))
+	}
+	for k := 0; k < n; k++ {
+		if _, v := h.connFate(k, false); v != "" && len(viols) < 3 {
+			addViol(v)
+		}
+	}
+	if pool.isDead() {
+		viols = append([]string{"impl-hang: a pool call did not return within " + wpWait.String()}, viols...)
+	}
+	impl := fmt.Sprintf("idleAtStop=%d busy=%d spread=%dus", idleNow, nBusy, spread)
+	return &Case{Impl: impl, Nontrivial: idleNow >= 1, Tags: []string{"stoprace"},
+		Judge: func([]string) Verdict {
+			wpHangs.Store(0)
+			if len(viols) > 0 {
+				return Verdict{VSpec, wpViolKey(viols[0]), viols[0] + " | " + impl}
+			}
+			return Ok()
+		}}
+}
+
 func init() {
 	Register(&Prop{
 		ID: "C13",
 		Rule: "ops: random macro-op sequences (4..14 ops of getCh/send/Serve/finish(closed|hijacked, lastUseTime)/clean(critical time)/Stop) on a real workerPool with MaxWorkersCount 1..3 " +
 			"and WorkerFunc parked on gates, every post-state (workersCount, ready stack with stamps, mustStop, fates) compared with the Lean transition system; thorough additionally enumerates all " +
 			"sequences of 3..5 ops over a reduced op alphabet of 8 ops for MaxWorkersCount 1..2; bsearch: clean's binary search on stamp lists of length 0..9 (sorted and unsorted) vs model and vs the expired-prefix reading; " +
+			"stopgate: all (0..3 idle + one stalled idle worker, 1..3 busy workers, non-empty subset of them finishing WHILE Stop is parked on the stalled worker's notification), deterministic; " +
+			"stoprace: Stop over 50..450 idle workers while 4..16 spinning workers finish at staggered delays; both judged by the monitor (after Stop and the end of every WorkerFunc workersCount = 0, ready empty, exactly-once); " +
 			"stress: real Start/Serve/clean/Stop with 2..6 feeder goroutines, MaxWorkersCount 1..3, MaxIdleWorkerDuration 2..6 ms, Stop at the end or midway, judged by the monitor; " +
 			"non-trivial = ops case with >= 3 state-changing ops / stress case with >= 2 accepted connections / bsearch with >= 2 workers; distinct = distinct input",
 		Parallel:   true,
@@ -896,6 +1138,10 @@ func init() {
 				return buildWpStress(a)
 			case "bsearch":
 				return buildWpBsearch(a)
+			case "stopgate":
+				return buildWpStopGate(a)
+			case "stoprace":
+				return buildWpStopRace(a)
 			}
 			return nil
 		},
@@ -1028,6 +1274,27 @@ func init() {
 					t += r.Intn(3)
 				}
 				emit("bsearch", args...)
+			}
+			// connections finishing while Stop runs: every (nIdle 0..3, nBusy 1..3, non-empty mask), repeated
+			reps := 2
+			if tier == "thorough" {
+				reps = 20
+			}
+			for rep := 0; rep < reps; rep++ {
+				for nIdle := 0; nIdle <= 3; nIdle++ {
+					for nBusy := 1; nBusy <= 3; nBusy++ {
+						for mask := 1; mask < 1<<nBusy; mask++ {
+							emit("stopgate", N(nIdle), N(nBusy), N(mask))
+						}
+					}
+				}
+			}
+			nRace := 40
+			if tier == "thorough" {
+				nRace = 400
+			}
+			for i := 0; i < nRace; i++ {
+				emit("stoprace", N(50+r.Intn(400)), N(4+r.Intn(13)), N(20+r.Intn(300)), N(r.Intn(1000)))
 			}
 			for i := 0; i < nStress; i++ {
 				max := 1 + i%3
